@@ -1680,6 +1680,10 @@ class DocutilsRenderer(RendererProtocol):
         newdoc["source"] = self.document["source"]
         newdoc.settings = self.document.settings
         newdoc.reporter = self.reporter
+        # share the id registry, so that ids allocated for the nested nodes
+        # are unique within (and registered on) the parent document
+        newdoc.ids = self.document.ids
+        newdoc.id_counter = self.document.id_counter
         # pad the line numbers artificially so they offset with the fence block
         pseudosource = ("\n" * token_line(token)) + token.content
         # actually parse the rst into our document
